@@ -187,8 +187,8 @@ def main(argv):
             can = r['canary']
             canary_total += can['checked']
             vac = [q for q in can['vacuous'] if any(f.qual == q and fn_has_prop(f, prop) for f in u.fns)]
-            if vac or can['other_errors']:
-                undecided.append('unit %s: vacuity canary: contradictory precondition in %s / other errors %s' % (un, vac, can['other_errors']))
+            if vac:
+                undecided.append('unit %s: vacuity canary: contradictory precondition (assert(false) verified) in %s; other errors of the canary run: %s' % (un, vac, can['other_errors']))
                 continue
             trusted += ['%s: %s %s' % (un, k, n) for k, n in u.trusted]
             # failures attributed to this property
@@ -318,8 +318,9 @@ def main(argv):
         # an undecided run must not be read as proof-level evidence
         ev['level'] = 'other'
         ev['coverage']['explanation'] = 'UNDECIDED (exit 2): ' + '; '.join(undecided)[:1500]
-    os.makedirs(os.path.join(VERIF, 'evidence'), exist_ok=True)
-    with open(os.path.join(VERIF, 'evidence', prop + '.json'), 'w') as fh:
+    evdir = os.environ.get('VERIF_EVIDENCE_DIR', os.path.join(VERIF, 'evidence'))
+    os.makedirs(evdir, exist_ok=True)
+    with open(os.path.join(evdir, prop + '.json'), 'w') as fh:
         json.dump(ev, fh, indent=1)
     for l in out_lines:
         print(l)
